@@ -219,8 +219,10 @@ def job_for(package, engine, label=None, extra_args=None):
 
 
 def build_all():
-    for pkg in sorted(set(j.package for j in ALL_JOBS)):
-        cargo_build(pkg, False)
+    # everything the quick tier needs (the thorough tier builds its extra variants on demand)
+    for j in ALL_JOBS:
+        if j.runs["quick"] > 0:
+            j.build("quick")
     cargo_build("primsim", True)
     cargo_build("expsim", False)
     import gensim
